@@ -21,7 +21,10 @@ class C13(Prop):
 
         g = []
         forms = [("ll[0:5]", lambda ll: ll[0:5], lambda s: s[0:5]), ("ll[-2:]", lambda ll: list(ll[-2:]), lambda s: s[-2:]), ("ll[::-1]", lambda ll: list(ll[::-1]), lambda s: s[::-1]),
-                 ("ll[1:2]", lambda ll: ll[1:2], lambda s: s[1:2]), ("ll[0:2]", lambda ll: ll[0:2], lambda s: s[0:2]), ("ll[:-1]", lambda ll: ll[:-1], lambda s: s[:-1]), ("ll[2::-1]", lambda ll: list(ll[2::-1]), lambda s: s[2::-1])]
+                 ("ll[1:2]", lambda ll: ll[1:2], lambda s: s[1:2]), ("ll[0:2]", lambda ll: ll[0:2], lambda s: s[0:2]), ("ll[:-1]", lambda ll: ll[:-1], lambda s: s[:-1]), ("ll[2::-1]", lambda ll: list(ll[2::-1]), lambda s: s[2::-1]),
+                 ("ll[3:1:-1]", lambda ll: list(ll[3:1:-1]), lambda s: s[3:1:-1]), ("ll[-3:-1]", lambda ll: ll[-3:-1], lambda s: s[-3:-1]), ("ll[1:]", lambda ll: list(ll[1:]), lambda s: s[1:]),
+                 ("ll[:2]", lambda ll: ll[:2], lambda s: s[:2]), ("ll[::2]", lambda ll: list(ll[::2]), lambda s: s[::2]), ("ll[1::2]", lambda ll: list(ll[1::2]), lambda s: s[1::2]),
+                 ("ll[-1::-2]", lambda ll: list(ll[-1::-2]), lambda s: s[-1::-2]), ("ll[0:3:2]", lambda ll: ll[0:3:2], lambda s: s[0:3:2])]
         for name, f, m in forms:
             bad = None
             for L in range(0, 4):
